@@ -44,6 +44,9 @@ func c12Walk(c *core.Case, vn *vnet.Net, nodes []*vnet.Node, path []int, block [
 	if err != nil {
 		c.Fatalf("%s: frame: %v", what, err)
 	}
+	if len(path) > 30 {
+		f.SetTTL(uint8(min(len(path)+5, 255))) // more hops than the default TTL allows
+	}
 	if err := src.Sw.ForwardByLabel(f, first); err != nil {
 		c.Fatalf("%s: origin cannot forward by the first label %d: %v", what, first, err)
 	}
@@ -81,45 +84,109 @@ func c12Walk(c *core.Case, vn *vnet.Net, nodes []*vnet.Node, path []int, block [
 func TestC12Switch(t *testing.T) {
 	pool := ids.Group("eu")
 	core.Run(t, core.Opts{ID: "C12", Quick: 400, Thorough: 20000}, func(c *core.Case) {
+		// Short paths over a line of routers, or (one case in four) long paths of
+		// up to 101 hops: from a source router into a ring of 3..5 routers, round
+		// and round it, and out to a tail router that is linked to every ring
+		// router (a router ignores frames that carry its own address as source,
+		// so the two end points are visited once). Long paths are shortened until
+		// their labels fit, so that block sizes at and just below the 255-byte
+		// limit are frequent.
 		h := c.Int("hops", 2, 6)
+		long := c.Chance("long", 1, 4)
+		k := 0
+		nNodes := h
+		if long {
+			k = c.Int("ring", 3, 5)
+			h = c.Uniform("long.hops", 7, 101)
+			nNodes = k + 2
+		}
 		vn := vnet.New()
 		var nodes []*vnet.Node
-		for i := 0; i < h; i++ {
+		for i := 0; i < nNodes; i++ {
 			n, err := vn.AddNode(fmt.Sprintf("n%d", i), pool[i], vnet.NodeOpts{})
 			if err != nil {
 				c.Fatalf("node: %v", err)
 			}
 			nodes = append(nodes, n)
 		}
-		fwd := make([]m.SwitchLabel, h) // label at node i of the link to i+1
-		ret := make([]m.SwitchLabel, h) // label at node i of the link to i-1
-		for i := 0; i < h-1; i++ {
-			fwd[i] = c12Label(c, "fwd")
-		}
-		for i := 1; i < h; i++ {
-			ret[i] = c12Label(c, "ret")
-			if ret[i] == fwd[i] {
-				ret[i] ^= 1
-				if ret[i] == 0 {
-					ret[i] = 2
+		// lab[{a,b}] is the label router a gave its link to b.
+		lab := map[[2]int]m.SwitchLabel{}
+		usedAt := map[int]map[m.SwitchLabel]bool{}
+		big := long && c.Bool("long.big-labels") // only three-byte labels: the limit is reached at 86 hops
+		connect := func(a, b int) {
+			for _, e := range [][2]int{{a, b}, {b, a}} {
+				l := c12Label(c, "label")
+				if big {
+					l = m.SwitchLabel(c.Uniform("label.big", 16384, 65535))
 				}
+				if usedAt[e[0]] == nil {
+					usedAt[e[0]] = map[m.SwitchLabel]bool{}
+				}
+				for l == 0 || usedAt[e[0]][l] {
+					l = l%65535 + 1
+				}
+				usedAt[e[0]][l] = true
+				lab[e] = l
 			}
-		}
-		var hops []m.SwitchHop
-		var path, back []int
-		for i := 0; i < h; i++ {
-			hops = append(hops, m.SwitchHop{Router: nodes[i].IP(), ForwardLabel: fwd[i], ReturnLabel: ret[i]})
-			path = append(path, i)
-			back = append([]int{i}, back...)
-		}
-		for i := 0; i < h-1; i++ {
-			if _, _, err := vn.Connect(nodes[i], nodes[i+1], vnet.LinkOpts{LabelA: fwd[i], LabelB: ret[i+1], LatA: 1, LatB: 1}); err != nil {
+			if _, _, err := vn.Connect(nodes[a], nodes[b], vnet.LinkOpts{LabelA: lab[[2]int{a, b}], LabelB: lab[[2]int{b, a}], LatA: 1, LatB: 1}); err != nil {
 				c.Fatalf("connect: %v", err)
 			}
 		}
-		sp := &m.SwitchPath{Hops: hops}
-		if err := sp.BuildBlocks(); err != nil {
-			c.Fatalf("BuildBlocks refused a %d-hop path: %v", h, err)
+		if !long {
+			for i := 0; i < h-1; i++ {
+				connect(i, i+1)
+			}
+		} else {
+			connect(0, 1) // source - first ring router
+			for j := 1; j <= k; j++ {
+				connect(j, j%k+1) // ring
+				connect(j, k+1)   // every ring router - tail
+			}
+		}
+		var sp *m.SwitchPath
+		var hops []m.SwitchHop
+		var path, back []int
+		var fwd, ret []m.SwitchLabel
+		for ; ; h-- {
+			path = nil
+			if !long {
+				for i := 0; i < h; i++ {
+					path = append(path, i)
+				}
+			} else {
+				path = append(path, 0)
+				for v := 0; v < h-2; v++ {
+					path = append(path, 1+v%k)
+				}
+				path = append(path, k+1)
+			}
+			hops, back = nil, nil
+			fwd, ret = make([]m.SwitchLabel, h), make([]m.SwitchLabel, h)
+			for i, at := range path {
+				if i < h-1 {
+					fwd[i] = lab[[2]int{at, path[i+1]}]
+				}
+				if i > 0 {
+					ret[i] = lab[[2]int{at, path[i-1]}]
+				}
+				hops = append(hops, m.SwitchHop{Router: nodes[at].IP(), ForwardLabel: fwd[i], ReturnLabel: ret[i]})
+				back = append([]int{at}, back...)
+			}
+			sp = &m.SwitchPath{Hops: hops}
+			err := sp.BuildBlocks()
+			if err == nil {
+				break
+			}
+			if !long || h <= 7 {
+				c.Fatalf("BuildBlocks refused a %d-hop path: %v", h, err)
+			}
+			c.Class("switch/long-path-refused-and-shortened")
+		}
+		if long {
+			c.Class(fmt.Sprintf("switch/long-path-block-size-from-%d", min(len(sp.ForwardBlock)/64*64, 192)))
+			if len(sp.ForwardBlock) == 255 {
+				c.Class("switch/block-of-exactly-255-bytes")
+			}
 		}
 		desc := c12Describe(hops)
 		c.Note("path %s block size %d", desc, len(sp.ForwardBlock))
